@@ -35,10 +35,11 @@ What is only stated (`C05.SimStatement`), with the hypotheses that are necessary
   * the frame does not shadow `n` (`Bound`): `n` is not an extension name, not `info`/`self`, not the name
     of the frame's own function (there, WITHOUT registers, the function wins over a parameter of the same
     name — finding `param-same-name-as-its-function`).
-Missing for the full statement: the cases of `evalI` that write the store (assignments to other
-variables, inner loops, index assignment, `del`) need the invariant "`n` stays bound to `.int v`"
-carried through `createOrSet`/`envDelete` (a `post_…` lemma per environment function, as in
-EvalSafeEnv.lean), and identifiers resolved through `makeRef` need it through the reference cache.
+Call-free STATEMENTS (assignments to other variables, `if`, statement lists, `print`, `return`/`break`/`continue`,
+identifiers resolved through references) are covered by `C05.simulation_stmt_partial` in RegSimStmt.lean, with the
+invariant carried through `createOrSet`/`envDelete`/`makeRef` in RegSimEnv.lean.  Still missing for the full
+statement: nested `for` loops, array/map literals, index reads and the remaining builtins (step lemmas of the same
+kind), and calls (where the statement is false without the callee hypothesis).
 The second half of the equivalence — a body that does not mention `n` evaluates the same whether or not
 the frame binds `n` (the register configuration has no binding, or a stale one) — is stated as
 `C05.IrrelevanceStatement`.
@@ -158,11 +159,19 @@ theorem C05.read_sim (n : String) (v : Int64) (fuel : Nat) (st : St) (h : Bound 
 
 /-! ### the simulation on the arithmetic fragment -/
 
-/-- two computations that run identically from every state `Same` as `s0`, and keep it so -/
-def EqOn (s0 : St) (x x' : M α) : Prop := ∀ st, Same s0 st → run x st = run x' st ∧ Same s0 (run x st).2
+/-- an invariant that only looks at frames, current scope and extension names -/
+class Stable (I : St → Prop) : Prop where
+  stable : ∀ st st', Same st st' → I st → I st'
 
-theorem EqOn.bind {s0 : St} {x x' : M α} {f f' : α → M β} (hx : EqOn s0 x x') (hf : ∀ a, EqOn s0 (f a) (f' a)) :
-    EqOn s0 (x >>= f) (x' >>= f') := by
+instance (s0 : St) : Stable (Same s0) := ⟨fun _ _ h h0 => h0.trans h⟩
+
+theorem Stable.step {I : St → Prop} [Stable I] {s s' : St} (hs : I s) (h : Same s s') : I s' := Stable.stable s s' h hs
+
+/-- two computations that run identically from every state satisfying the invariant `I`, and keep it -/
+def EqOn (I : St → Prop) (x x' : M α) : Prop := ∀ st, I st → run x st = run x' st ∧ I (run x st).2
+
+theorem EqOn.bind {I : St → Prop} {x x' : M α} {f f' : α → M β} (hx : EqOn I x x') (hf : ∀ a, EqOn I (f a) (f' a)) :
+    EqOn I (x >>= f) (x' >>= f') := by
   intro st hs
   obtain ⟨e, hs1⟩ := hx st hs
   rw [run_bind, run_bind, ← e]
@@ -175,29 +184,29 @@ theorem EqOn.bind {s0 : St} {x x' : M α} {f f' : α → M β} (hx : EqOn s0 x x
     rw [h] at hs1
     exact ⟨rfl, hs1⟩
 
-theorem EqOn.of_readOnly {s0 : St} {x : M α} (hx : ReadOnly x) : EqOn s0 x x :=
+theorem EqOn.of_readOnly {I : St → Prop} {x : M α} (hx : ReadOnly x) : EqOn I x x :=
   fun st hs => ⟨rfl, by rw [hx st]; exact hs⟩
 
-theorem EqOn.get_bind {s0 : St} {k k' : St → M β} (h : ∀ s, Same s0 s → EqOn s0 (k s) (k' s)) :
-    EqOn s0 (get >>= k) (get >>= k') := by
+theorem EqOn.get_bind {I : St → Prop} {k k' : St → M β} (h : ∀ s, I s → EqOn I (k s) (k' s)) :
+    EqOn I (get >>= k) (get >>= k') := by
   intro st hs
   rw [run_bind, run_bind, run_get]
   exact h st hs st hs
 
-theorem EqOn.set_bind {s0 s' : St} {k k' : Unit → M β} (hs' : Same s0 s') (h : EqOn s0 (k ()) (k' ())) :
-    EqOn s0 (set s' >>= k) (set s' >>= k') := by
+theorem EqOn.set_bind {I : St → Prop} {s' : St} {k k' : Unit → M β} (hs' : I s') (h : EqOn I (k ()) (k' ())) :
+    EqOn I (set s' >>= k) (set s' >>= k') := by
   intro st _
   rw [run_bind, run_bind, run_set]
   exact h s' hs'
 
-theorem EqOn.modify_bind {s0 : St} {g : St → St} {k k' : Unit → M β} (hg : ∀ st, Same st (g st)) (h : EqOn s0 (k ()) (k' ())) :
-    EqOn s0 (modify g >>= k) (modify g >>= k') := by
+theorem EqOn.modify_bind {I : St → Prop} [Stable I] {g : St → St} {k k' : Unit → M β} (hg : ∀ st, Same st (g st)) (h : EqOn I (k ()) (k' ())) :
+    EqOn I (modify g >>= k) (modify g >>= k') := by
   intro st hs
   rw [run_bind, run_bind, run_modify]
-  exact h (g st) (hs.trans (hg st))
+  exact h (g st) (Stable.stable _ _ (hg st) hs)
 
-theorem EqOn.stop_bind {s0 : St} {e : Stop} {k k' : α → M β} :
-    EqOn s0 ((stop e : M α) >>= k) ((stop e : M α) >>= k') := by
+theorem EqOn.stop_bind {I : St → Prop} {e : Stop} {k k' : α → M β} :
+    EqOn I ((stop e : M α) >>= k) ((stop e : M α) >>= k') := by
   intro st hs
   rw [run_bind, run_bind, run_stop]
   exact ⟨rfl, hs⟩
@@ -216,8 +225,8 @@ theorem Pres.bind {x : M α} {f : α → M β} (hx : Pres x) (hf : ∀ a, Pres (
   | (.ok a, st1) => simp only; rw [hr] at h; exact h.trans (hf a st1)
   | (.error e, st1) => simp only; rw [hr] at h; exact h
 
-theorem EqOn.of_pres {s0 : St} {x : M α} (hx : Pres x) : EqOn s0 x x :=
-  fun st hs => ⟨rfl, hs.trans (hx st)⟩
+theorem EqOn.of_pres {I : St → Prop} [Stable I] {x : M α} (hx : Pres x) : EqOn I x x :=
+  fun st hs => ⟨rfl, Stable.stable _ _ (hx st) hs⟩
 
 theorem pres_noteHazard (c : Bool) (k n : String) : Pres (noteHazard c k n) := by
   unfold noteHazard
@@ -225,8 +234,8 @@ theorem pres_noteHazard (c : Bool) (k n : String) : Pres (noteHazard c k n) := b
   · intro st; exact ⟨rfl, rfl, rfl⟩
   · exact Pres.of_readOnly (ReadOnly.pure _)
 
-theorem eval_succ_eqOn {s0 : St} {fuel : Nat} {L L' : Node} (h : EqOn s0 (evalI fuel L) (evalI fuel L')) :
-    EqOn s0 (eval (fuel+1) L) (eval (fuel+1) L') := by
+theorem eval_succ_eqOn {I : St → Prop} [Stable I] {fuel : Nat} {L L' : Node} (h : EqOn I (evalI fuel L) (evalI fuel L')) :
+    EqOn I (eval (fuel+1) L) (eval (fuel+1) L') := by
   rw [eval, eval]
   apply EqOn.get_bind
   intro s hs
@@ -234,7 +243,7 @@ theorem eval_succ_eqOn {s0 : St} {fuel : Nat} {L L' : Node} (h : EqOn s0 (evalI 
   split
   · exact EqOn.stop_bind
   · refine EqOn.set_bind ?_ ?_
-    · exact ⟨hs.1, hs.2.1, hs.2.2⟩
+    · exact Stable.step hs ⟨rfl, rfl, rfl⟩
     apply EqOn.bind h
     intro result
     refine EqOn.modify_bind ?_ ?_
@@ -246,16 +255,16 @@ theorem eval_succ_eqOn {s0 : St} {fuel : Nat} {L L' : Node} (h : EqOn s0 (evalI 
       · exact ReadOnly.bind (ReadOnly.pure _) (fun r => by split; exact readOnly_refValue _ _; exact ReadOnly.pure _)
     · exact ReadOnly.bind (ReadOnly.pure _) (fun r => by split; exact readOnly_refValue _ _; exact ReadOnly.pure _)
 
-theorem evalI_pre_eqOn {s0 : St} {fuel : Nat} {op : String} {R R' : Node} (hop : (op == "INCR" || op == "DECR") = false)
-    (h : EqOn s0 (eval fuel R) (eval fuel R')) :
-    EqOn s0 (evalI (fuel+1) (.pre op R)) (evalI (fuel+1) (.pre op R')) := by
-  have leaf : EqOn s0 (do let r ← eval fuel R; if r.isError = true then pure r else pure (evalPrefixOp op r))
+theorem evalI_pre_eqOn {I : St → Prop} [Stable I] {fuel : Nat} {op : String} {R R' : Node} (hop : (op == "INCR" || op == "DECR") = false)
+    (h : EqOn I (eval fuel R) (eval fuel R')) :
+    EqOn I (evalI (fuel+1) (.pre op R)) (evalI (fuel+1) (.pre op R')) := by
+  have leaf : EqOn I (do let r ← eval fuel R; if r.isError = true then pure r else pure (evalPrefixOp op r))
       (do let r ← eval fuel R'; if r.isError = true then pure r else pure (evalPrefixOp op r)) := by
     apply EqOn.bind h; intro r; apply EqOn.of_readOnly; split <;> exact ReadOnly.pure _
   rw [evalI, evalI]
   apply EqOn.get_bind; intro s hs
   refine EqOn.set_bind ?_ ?_
-  · exact ⟨hs.1, hs.2.1, hs.2.2⟩
+  · exact Stable.step hs ⟨rfl, rfl, rfl⟩
   simp only [hop, Bool.false_eq_true, if_false]
   split
   · split
@@ -279,9 +288,9 @@ macro "inf_crawl" ht:ident hr:ident : tactic => `(tactic| repeat' (first
   | split))
 
 /-- `bind` when the continuations are only related for the results the first computation can have -/
-theorem EqOn.bind_post {s0 : St} {x x' : M α} {f f' : α → M β} {P : α → Prop} (hx : EqOn s0 x x')
-    (hP : ∀ st, Same s0 st → ∀ a, (run x st).1 = .ok a → P a)
-    (hf : ∀ a, P a → EqOn s0 (f a) (f' a)) : EqOn s0 (x >>= f) (x' >>= f') := by
+theorem EqOn.bind_post {I : St → Prop} {x x' : M α} {f f' : α → M β} {P : α → Prop} (hx : EqOn I x x')
+    (hP : ∀ st, I st → ∀ a, (run x st).1 = .ok a → P a)
+    (hf : ∀ a, P a → EqOn I (f a) (f' a)) : EqOn I (x >>= f) (x' >>= f') := by
   intro st hs
   obtain ⟨e, hs1⟩ := hx st hs
   rw [run_bind, run_bind, ← e]
@@ -300,12 +309,12 @@ def LeftOk (L L' : Node) (left : Obj) : Prop := hazardBase L = hazardBase L' ∨
 
 /-- the infix case for one setting of the three operator tests the evaluator makes (`and`, `or`, `|`): with them
 decided the unfolded body is small.  `$ha $ho $hb` are the hypotheses `(op == "AND") = …` etc. -/
-macro "inf_proof" s0:ident fuel:ident op:ident L:ident L':ident R:ident R':ident hop:ident ht:ident hl:ident hr:ident hz:ident ha:ident ho:ident hb:ident : tactic => `(tactic| (
+macro "inf_proof" I:ident fuel:ident op:ident L:ident L':ident R:ident R':ident hop:ident ht:ident hl:ident hr:ident hz:ident ha:ident ho:ident hb:ident : tactic => `(tactic| (
   rw [evalI, evalI]
   apply EqOn.get_bind; intro s hs
   refine EqOn.set_bind ?_ ?_
-  · exact ⟨hs.1, hs.2.1, hs.2.2⟩
-  have htail : ∀ left : Obj, LeftOk $L $L' left → EqOn $s0
+  · exact Stable.step hs ⟨rfl, rfl, rfl⟩
+  have htail : ∀ left : Obj, LeftOk $L $L' left → EqOn $I
       (do let right ← eval $fuel $R
           if right.isError = true then pure right
           else match left with
@@ -339,7 +348,7 @@ macro "inf_proof" s0:ident fuel:ident op:ident L:ident L':ident R:ident R':ident
       · split
         · exact absurd rfl (hna _)
         · exact EqOn.of_readOnly (evalInfixOp_readOnly _ _ _)
-  have hP : ∀ st, Same $s0 st → ∀ a, (run (eval $fuel $L) st).1 = .ok a → LeftOk $L $L' a := by
+  have hP : ∀ st, $I st → ∀ a, (run (eval $fuel $L) st).1 = .ok a → LeftOk $L $L' a := by
     intro st hst a ha'
     cases $hz:ident with
     | inl h => exact Or.inl h
@@ -357,44 +366,44 @@ macro "inf_proof" s0:ident fuel:ident op:ident L:ident L':ident R:ident R':ident
     inf_crawl htail $hr))
 
 section
-variable {s0 : St} {fuel : Nat} {op : String} {L L' R R' : Node}
+variable {I : St → Prop} {fuel : Nat} {op : String} {L L' R R' : Node}
 
 /-- the side condition of the infix case: same name on the left, or the left value is never an array -/
-def HazOk (s0 : St) (fuel : Nat) (L L' : Node) : Prop :=
-  hazardBase L = hazardBase L' ∨ ∀ st, Same s0 st → ∀ els, (run (eval fuel L) st).1 ≠ .ok (.array els)
+def HazOk (I : St → Prop) (fuel : Nat) (L L' : Node) : Prop :=
+  hazardBase L = hazardBase L' ∨ ∀ st, I st → ∀ els, (run (eval fuel L) st).1 ≠ .ok (.array els)
 
-theorem evalI_inf_eqOn_and (hop : (op == "ASSIGN" || op == "DEFINE") = false)
+theorem evalI_inf_eqOn_and [Stable I] (hop : (op == "ASSIGN" || op == "DEFINE") = false)
     (ht : (R.tokType == "LPAREN") = (R'.tokType == "LPAREN"))
-    (hl : EqOn s0 (eval fuel L) (eval fuel L')) (hr : EqOn s0 (eval fuel R) (eval fuel R')) (hz : HazOk s0 fuel L L')
+    (hl : EqOn I (eval fuel L) (eval fuel L')) (hr : EqOn I (eval fuel R) (eval fuel R')) (hz : HazOk I fuel L L')
     (ha : (op == "AND") = true) (ho : (op == "OR") = false) (hb : (op == "BITOR") = false) :
-    EqOn s0 (evalI (fuel+1) (.inf op L R)) (evalI (fuel+1) (.inf op L' R')) := by
-  inf_proof s0 fuel op L L' R R' hop ht hl hr hz ha ho hb
+    EqOn I (evalI (fuel+1) (.inf op L R)) (evalI (fuel+1) (.inf op L' R')) := by
+  inf_proof I fuel op L L' R R' hop ht hl hr hz ha ho hb
 
-theorem evalI_inf_eqOn_or (hop : (op == "ASSIGN" || op == "DEFINE") = false)
+theorem evalI_inf_eqOn_or [Stable I] (hop : (op == "ASSIGN" || op == "DEFINE") = false)
     (ht : (R.tokType == "LPAREN") = (R'.tokType == "LPAREN"))
-    (hl : EqOn s0 (eval fuel L) (eval fuel L')) (hr : EqOn s0 (eval fuel R) (eval fuel R')) (hz : HazOk s0 fuel L L')
+    (hl : EqOn I (eval fuel L) (eval fuel L')) (hr : EqOn I (eval fuel R) (eval fuel R')) (hz : HazOk I fuel L L')
     (ha : (op == "AND") = false) (ho : (op == "OR") = true) (hb : (op == "BITOR") = false) :
-    EqOn s0 (evalI (fuel+1) (.inf op L R)) (evalI (fuel+1) (.inf op L' R')) := by
-  inf_proof s0 fuel op L L' R R' hop ht hl hr hz ha ho hb
+    EqOn I (evalI (fuel+1) (.inf op L R)) (evalI (fuel+1) (.inf op L' R')) := by
+  inf_proof I fuel op L L' R R' hop ht hl hr hz ha ho hb
 
-theorem evalI_inf_eqOn_bitor (hop : (op == "ASSIGN" || op == "DEFINE") = false)
+theorem evalI_inf_eqOn_bitor [Stable I] (hop : (op == "ASSIGN" || op == "DEFINE") = false)
     (ht : (R.tokType == "LPAREN") = (R'.tokType == "LPAREN"))
-    (hl : EqOn s0 (eval fuel L) (eval fuel L')) (hr : EqOn s0 (eval fuel R) (eval fuel R')) (hz : HazOk s0 fuel L L')
+    (hl : EqOn I (eval fuel L) (eval fuel L')) (hr : EqOn I (eval fuel R) (eval fuel R')) (hz : HazOk I fuel L L')
     (ha : (op == "AND") = false) (ho : (op == "OR") = false) (hb : (op == "BITOR") = true) :
-    EqOn s0 (evalI (fuel+1) (.inf op L R)) (evalI (fuel+1) (.inf op L' R')) := by
-  inf_proof s0 fuel op L L' R R' hop ht hl hr hz ha ho hb
+    EqOn I (evalI (fuel+1) (.inf op L R)) (evalI (fuel+1) (.inf op L' R')) := by
+  inf_proof I fuel op L L' R R' hop ht hl hr hz ha ho hb
 
-theorem evalI_inf_eqOn_other (hop : (op == "ASSIGN" || op == "DEFINE") = false)
+theorem evalI_inf_eqOn_other [Stable I] (hop : (op == "ASSIGN" || op == "DEFINE") = false)
     (ht : (R.tokType == "LPAREN") = (R'.tokType == "LPAREN"))
-    (hl : EqOn s0 (eval fuel L) (eval fuel L')) (hr : EqOn s0 (eval fuel R) (eval fuel R')) (hz : HazOk s0 fuel L L')
+    (hl : EqOn I (eval fuel L) (eval fuel L')) (hr : EqOn I (eval fuel R) (eval fuel R')) (hz : HazOk I fuel L L')
     (ha : (op == "AND") = false) (ho : (op == "OR") = false) (hb : (op == "BITOR") = false) :
-    EqOn s0 (evalI (fuel+1) (.inf op L R)) (evalI (fuel+1) (.inf op L' R')) := by
-  inf_proof s0 fuel op L L' R R' hop ht hl hr hz ha ho hb
+    EqOn I (evalI (fuel+1) (.inf op L R)) (evalI (fuel+1) (.inf op L' R')) := by
+  inf_proof I fuel op L L' R R' hop ht hl hr hz ha ho hb
 
-theorem evalI_inf_eqOn (hop : (op == "ASSIGN" || op == "DEFINE") = false)
+theorem evalI_inf_eqOn [Stable I] (hop : (op == "ASSIGN" || op == "DEFINE") = false)
     (ht : (R.tokType == "LPAREN") = (R'.tokType == "LPAREN"))
-    (hl : EqOn s0 (eval fuel L) (eval fuel L')) (hr : EqOn s0 (eval fuel R) (eval fuel R')) (hz : HazOk s0 fuel L L') :
-    EqOn s0 (evalI (fuel+1) (.inf op L R)) (evalI (fuel+1) (.inf op L' R')) := by
+    (hl : EqOn I (eval fuel L) (eval fuel L')) (hr : EqOn I (eval fuel R) (eval fuel R')) (hz : HazOk I fuel L L') :
+    EqOn I (evalI (fuel+1) (.inf op L R)) (evalI (fuel+1) (.inf op L' R')) := by
   by_cases ha : (op == "AND") = true
   · have : op = "AND" := eq_of_beq ha
     exact evalI_inf_eqOn_and hop ht hl hr hz ha (by subst this; decide) (by subst this; decide)
@@ -465,8 +474,8 @@ theorem tokType_paren (regs : Nat → Int64) (n : String) (idx : Nat) (r : RNode
     · simp only [substAll, h, inst]; rfl
 
 /-- one leaf of `evalI`: the step counter, the deadline test, then `x` -/
-theorem evalI_leaf {s0 : St} {x y : M Obj} (h : EqOn s0 x y) :
-    EqOn s0
+theorem evalI_leaf {I : St → Prop} [Stable I] {x y : M Obj} (h : EqOn I x y) :
+    EqOn I
       (do let st ← get
           set { st with steps := st.steps + 1 }
           match st.cfg.deadlineAfter with
@@ -479,27 +488,27 @@ theorem evalI_leaf {s0 : St} {x y : M Obj} (h : EqOn s0 x y) :
           | _ => y) := by
   apply EqOn.get_bind; intro s hs
   refine EqOn.set_bind ?_ ?_
-  · exact ⟨hs.1, hs.2.1, hs.2.2⟩
+  · exact Stable.step hs ⟨rfl, rfl, rfl⟩
   split
   · split
     · exact EqOn.of_readOnly (ReadOnly.pure _)
     · exact h
   · exact h
 
-theorem eqOn_ident {s0 : St} {m : String} {o : Obj} (h : Direct m o s0) : EqOn s0 (pure o) (evalIdentifier m) := by
+theorem eqOn_ident {s0 : St} {m : String} {o : Obj} (h : Direct m o s0) : EqOn (Same s0) (pure o) (evalIdentifier m) := by
   intro st hs
   rw [run_evalIdentifier_direct (h.of_same hs)]
   exact ⟨rfl, hs⟩
 
-theorem eqOn_ident_self {s0 : St} {m : String} {o : Obj} (h : Direct m o s0) : EqOn s0 (evalIdentifier m) (evalIdentifier m) := by
+theorem eqOn_ident_self {s0 : St} {m : String} {o : Obj} (h : Direct m o s0) : EqOn (Same s0) (evalIdentifier m) (evalIdentifier m) := by
   intro st hs
   rw [run_evalIdentifier_direct (h.of_same hs)]
   exact ⟨rfl, hs⟩
 
 theorem sim_arith (n : String) (idx : Nat) (v : Int64) (regs : Nat → Int64) (hregs : regs idx = v) (s0 : St) (hb : Bound n v s0) :
     ∀ (fuel : Nat) (b : RNode), Arith n s0 b →
-      EqOn s0 (evalI fuel (inst regs (substAll n idx b))) (evalI fuel (inst regs b)) ∧
-      EqOn s0 (eval fuel (inst regs (substAll n idx b))) (eval fuel (inst regs b)) := by
+      EqOn (Same s0) (evalI fuel (inst regs (substAll n idx b))) (evalI fuel (inst regs b)) ∧
+      EqOn (Same s0) (eval fuel (inst regs (substAll n idx b))) (eval fuel (inst regs b)) := by
   intro fuel
   induction fuel with
   | zero =>
